@@ -337,7 +337,7 @@ Definition recv_req (w : world) : obs * world :=
     | Some c =>
       match poll_stream (S (length (c_inq c))) c with
       | (PPending, c') => (BRecvPending, upd_conn w c')
-      | (PEnded, c') => (BRecvErr ENoMessage, with_cur (upd_conn w c') None (w_env w))
+      | (PEnded, c') => (BRecvErr ENoMessage, peer_disconnected (with_cur (upd_conn w c') None (w_env w)) k)
       | (PItem (OItem (IMessage m)), c') =>
         let w1 := with_cur (upd_conn w c') None (w_env w) in
         match req_unwrap m with
@@ -346,7 +346,7 @@ Definition recv_req (w : world) : obs * world :=
         | Panic _ => (BRecvErr EOther, w1)
         end
       | (PItem (OItem _), c') => (BRecvErr EOther, with_cur (upd_conn w c') None (w_env w))
-      | (PItem (OErr e), c') => (BRecvErr e, with_cur (upd_conn w c') None (w_env w))
+      | (PItem (OErr e), c') => (BRecvErr e, peer_disconnected (with_cur (upd_conn w c') None (w_env w)) k)
       | (PItem _, c') => (BRecvErr EOther, w)
       end
     end
